@@ -72,24 +72,21 @@ theorem inv_init : PoolInv [] ∧ ∀ n : Option Int, ({ nrexcl := n } : Mol).In
   · intro e he; cases he
   · intro ti hti; cases hti
 
-/-- EVERY operation (with every argument, succeeding or failing) preserves the invariant — except
-`Molecule.clear()` on a molecule that has an interaction with an atom (`Op.safe`, finding F-C12-4,
-`clear_dangling_witness` in `VermouthProps/C12_Ext.lean`) -/
-theorem inv_step (p : Pool) (op : Op) (h : PoolInv p) (hs : op.safe p = true) : PoolInv (step p op).1 :=
-  step_inv h op hs
+/-- EVERY operation (with every argument, succeeding or failing) preserves the invariant
+(`Molecule.clear()` included since the repair of F-C12-4; what it did before is
+`clear_old_dangling_witness` in `VermouthProps/C12_Ext.lean`) -/
+theorem inv_step (p : Pool) (op : Op) (h : PoolInv p) : PoolInv (step p op).1 := step_inv h op
 
-/-- after ANY sequence of editing operations, each safe where it is applied (in particular any
-sequence without `clear`, `safe_run_of_no_clear`), every member of the pool satisfies the invariant -/
-theorem inv_reachable (ops : List Op) (hs : SafeRun [] ops = true) : PoolInv (run [] ops) :=
-  run_inv inv_init.1 ops hs
+/-- after ANY sequence of editing operations every member of the pool satisfies the invariant -/
+theorem inv_reachable (ops : List Op) : PoolInv (run [] ops) := run_inv inv_init.1 ops
 
 /-- the first clause of C12, spelled out: after any history every interaction and every bond of
 every molecule refers only to atoms that are present, and keys are distinct -/
-theorem reachable_no_dangling (ops : List Op) (hs : SafeRun [] ops = true) (m : Mol) (hm : m ∈ run [] ops) :
+theorem reachable_no_dangling (ops : List Op) (m : Mol) (hm : m ∈ run [] ops) :
     m.keys.Nodup ∧
     (∀ e ∈ m.edges, m.hasNode e.1 = true ∧ m.hasNode e.2 = true) ∧
     (∀ ti ∈ m.inters, ∀ a ∈ ti.2.atoms, m.hasNode a = true) := by
-  obtain ⟨⟨h1, h2, h3⟩, _⟩ := inv_reachable ops hs m hm
+  obtain ⟨⟨h1, h2, h3⟩, _⟩ := inv_reachable ops m hm
   refine ⟨h1, ?_, ?_⟩
   · intro e he; exact ⟨(mem_keys_iff m _).mpr (h2 e he).1, (mem_keys_iff m _).mpr (h2 e he).2⟩
   · intro ti hti a ha; exact (mem_keys_iff m _).mpr (h3 ti hti a ha)
@@ -106,7 +103,6 @@ def exHistory : List Op :=
 example : (run [] exHistory).length = 4 := by decide
 example : ((run [] exHistory)[0]?.map Mol.keys) = some [1, 3, 4, 5, 6, 42, 43] := by decide
 example : PoolInv (run [] exHistory) := by decide
-example : SafeRun [] exHistory = true := by decide
 
 /-! ## 3. Frame: a copy or subgraph can be edited without changing its source -/
 
@@ -190,10 +186,10 @@ example : (exA.subgraph [2, 1]).map (fun s => (s.edges, s.inters.length)) = some
 /-! ## 4. Error outcomes leave the state unchanged -/
 
 /-- whatever the operation: if it does not report `ok`, the whole pool is unchanged
-(`add_or_replace_interaction` included: it can only fail before it changes anything).  The two
-exceptions are excluded by `Op.failSafe`: a molecule merged into itself (F-C12-5) and a merge
-whose newcomer has a log entry that mentions an atom it does not have (F-C12-6); see
-`self_merge_spec` and `merge_log_keyerror_witness` in `VermouthProps/C12_Ext.lean` -/
+(`add_or_replace_interaction` included: it can only fail before it changes anything).  The one
+exception is excluded by `Op.failSafe`: a merge whose newcomer (the other molecule, or the snapshot
+of the molecule itself) has a log entry that mentions an atom it does not have (observation
+F-C12-6, `merge_log_keyerror_witness` in `VermouthProps/C12_Ext.lean`) -/
 theorem error_no_change (p : Pool) (op : Op) (hfs : op.failSafe p = true) (h : (step p op).2 ≠ .ok) :
     (step p op).1 = p :=
   step_err p op hfs h
@@ -225,7 +221,7 @@ theorem error_raised (p : Pool) (i : Nat) (m : Mol) (hm : p[i]? = some m) :
     simp only [step, hm, Mol.subgraph, this, Bool.false_eq_true, ↓reduceIte]
   · intro j o hj ho hn
     have hij : ¬ i = j := fun e => hj e.symm
-    simp only [step, hij, ↓reduceIte, hm, ho, merge_err hn, setAt, set_self p i m hm]
+    simp only [step, mergeOperand, hij, ↓reduceIte, hm, ho, merge_err hn, setAt, set_self p i m hm]
   · intro b ao ro co hb
     simp only [step, fromBlockStep, hb]
 
@@ -591,13 +587,10 @@ A system is a list of references (pool indices).  `SInv st` = every pool member 
 
 theorem sinv_init : SInv {} := by decide
 
-/-- every system-level operation (the molecule operations included, `clear` of a molecule with
-interactions excepted: `Op.safe`) preserves `SInv` -/
-theorem sinv_step (st : State) (op : SOp) (h : SInv st)
-    (hsafe : ∀ op', op = .mol op' → op'.safe st.pool = true) : SInv (sstep st op).1 := sstep_inv h op hsafe
+/-- every system-level operation (the molecule operations included) preserves `SInv` -/
+theorem sinv_step (st : State) (op : SOp) (h : SInv st) : SInv (sstep st op).1 := sstep_inv h op
 
-theorem sinv_reachable (ops : List SOp) (hs : SSafeRun {} ops = true) : SInv (srun {} ops) :=
-  srun_inv sinv_init ops hs
+theorem sinv_reachable (ops : List SOp) : SInv (srun {} ops) := srun_inv sinv_init ops
 
 /-- frame: a pool member other than the ones edited in place (`SOp.targets`: the target of a
 molecule operation, the first molecule of the system for MergeAllMolecules, nothing for
